@@ -19,6 +19,11 @@ if "def" in ast.unparse(ast.parse("𝕕𝕖𝕗 = 1")):
 
     true_unparse = ast.unparse
 
+    def mince(v):
+        if keyword.iskeyword(v) and v not in ("True", "False", "None"):
+            return chr(ord(v[0]) - ord("a") + ord("𝐚")) + v[1:]
+        return v
+
     def rewriting_unparse(ast_obj):
         ast_obj = copy.deepcopy(ast_obj)
         for node in ast.walk(ast_obj):
@@ -27,14 +32,14 @@ if "def" in ast.unparse(ast.parse("𝕕𝕖𝕗 = 1")):
                 continue
             for field in node._fields:
                 v = getattr(node, field, None)
-                if (
-                    type(v) is str
-                    and keyword.iskeyword(v)
-                    and v not in ("True", "False", "None")
-                ):
-                    # We refer to this transformation as "keyword mincing"
-                    # in documentation.
-                    setattr(node, field, chr(ord(v[0]) - ord("a") + ord("𝐚")) + v[1:])
+                # We refer to this transformation as "keyword mincing"
+                # in documentation. Identifiers also occur in lists
+                # (`global`, `nonlocal`, class-pattern keywords) and as
+                # components of dotted module names.
+                if type(v) is str:
+                    setattr(node, field, ".".join(map(mince, v.split("."))))
+                elif type(v) is list and v and all(type(x) is str for x in v):
+                    setattr(node, field, [mince(x) for x in v])
         return true_unparse(ast_obj)
 
     ast.unparse = rewriting_unparse
